@@ -272,11 +272,14 @@ def path_event_sets(fn, block_events=None, edge_events=None, start=0, stop_block
     Returns (dict exit_bb -> set of tuples, capped: bool)."""
     block_events = block_events or {}
     edge_events = edge_events or {}
-    be = back_edges(fn)
     exits = set(stop_blocks) if stop_blocks is not None else set(fn.return_blocks())
-    nodes = fn.reach(start, avoid_edges=be)
+    # back edges are cut, except those that enter an explicit stop block (exits are never expanded)
+    be = set(e for e in back_edges(fn) if e[1] not in exits or stop_blocks is None)
+    nodes = _reach_stop(fn, start, be, exits)
     indeg = defaultdict(int)
     for b in nodes:
+        if b in exits and b != start:
+            continue
         for (t, lab) in fn.succ(b):
             if (b, t) in be or t not in nodes:
                 continue
@@ -294,10 +297,12 @@ def path_event_sets(fn, block_events=None, edge_events=None, start=0, stop_block
     capped = False
     while dq:
         b = dq.popleft()
+        if b in exits and b != start:
+            continue
         for (t, lab) in fn.succ(b):
             if (b, t) in be or t not in nodes:
                 continue
-            if b not in exits:
+            if True:
                 ee = tuple(edge_events.get((b, t, lab), []))
                 te = tuple(block_events.get(t, []))
                 kk = keys.get(b)
@@ -334,6 +339,22 @@ def path_event_sets(fn, block_events=None, edge_events=None, start=0, stop_block
             if indeg[t] == 0:
                 dq.append(t)
     return {e: set(ev for (ev, _) in states.get(e, set())) for e in exits if e in nodes}, capped
+
+
+def _reach_stop(fn, start, be, exits):
+    seen = {start}
+    dq = deque([start])
+    while dq:
+        b = dq.popleft()
+        if b in exits and b != start:
+            continue
+        for (t, lab) in fn.succ(b):
+            if (b, t) in be:
+                continue
+            if t not in seen:
+                seen.add(t)
+                dq.append(t)
+    return seen
 
 
 def blocks_in_loops(fn):
@@ -601,3 +622,273 @@ def lock_order_edges(P, fns, depth=3):
                 for h in IN[c.bb] if sites else []:
                     edges.append((names[h], rn, fn, c.line, callee.name))
     return edges, acqs
+
+
+# ----------------------------------------------------------------------------- decision tables
+
+CMP_CALLS = {"std::cmp::PartialOrd::lt": "Lt", "std::cmp::PartialOrd::le": "Le", "std::cmp::PartialOrd::gt": "Gt",
+             "std::cmp::PartialOrd::ge": "Ge", "std::cmp::PartialEq::eq": "Eq", "std::cmp::PartialEq::ne": "Ne"}
+
+
+def norm_bool(sym, value=True):
+    """Normalise a boolean sym to (atom_string, value). Comparisons are canonicalised to `a<b` / `a==b`
+    atoms so that `a >= b` reads as (a<b, False) and `b > a` as (a<b, True)."""
+    s = strip(sym)
+    while True:
+        if s[0] == "un" and s[1] == "Not":
+            s = strip(s[2])
+            value = not value
+            continue
+        if s[0] == "bin" and s[1] in ("Eq", "Ne"):
+            a, b = strip(s[2]), strip(s[3])
+            if a[0] == "const" and isinstance(a[2], bool):
+                a, b = b, a
+            if b[0] == "const" and isinstance(b[2], bool):
+                if (s[1] == "Eq") != b[2]:
+                    value = not value
+                s = a
+                continue
+        break
+    op = None
+    if s[0] == "bin" and s[1] in ("Lt", "Le", "Gt", "Ge", "Eq", "Ne"):
+        op, a, b = s[1], s[2], s[3]
+    elif s[0] == "call" and (s[4] in CMP_CALLS or s[1] in CMP_CALLS) and len(s[2]) == 2:
+        op = CMP_CALLS.get(s[4]) or CMP_CALLS.get(s[1])
+        a, b = s[2]
+    if op:
+        fa, fb = fmt_sym(a), fmt_sym(b)
+        if op == "Lt":
+            return ("%s < %s" % (fa, fb), value)
+        if op == "Ge":
+            return ("%s < %s" % (fa, fb), not value)
+        if op == "Gt":
+            return ("%s < %s" % (fb, fa), value)
+        if op == "Le":
+            return ("%s < %s" % (fb, fa), not value)
+        x, y = sorted([fa, fb])
+        if op == "Eq":
+            return ("%s == %s" % (x, y), value)
+        return ("%s == %s" % (x, y), not value)
+    return (fmt_sym(s), value)
+
+
+def decision_table(fn, start=0, stop_blocks=None, cap=4000):
+    """All acyclic paths of a (nearly) loop-free function as rows
+    (conds: tuple of (atom, value), ret: string of the value assigned to _0 last, calls: tuple of callee names).
+    Bool switches give (atom, True/False); discriminant switches give ('X is V', True) for listed variants and
+    ('X is V', False) for each listed variant on the otherwise edge."""
+    block_ev = {}
+    edge_ev = {}
+    nb = fn.normal_blocks()
+    for b in sorted(nb):
+        evs = []
+        for s in fn.stmts(b):
+            if s[2] == "=" and s[3][0] == 0 and not s[3][1]:
+                evs.append(("R", fmt_sym(fn.sym_rvalue(s[4]), maxdepth=10)))
+        t = fn.term(b)
+        if t[2] == "call" and t[5][0] == 0 and not t[5][1]:
+            evs.append(("R", fmt_sym(fn.sym_call(ir.Call(fn, b, t)), maxdepth=10)))
+        if evs:
+            block_ev[b] = evs
+        if t[2] == "switch":
+            be = bool_edges(fn, b)
+            cond = fn.sym_switch(b)
+            if be is not None:
+                atom_t = norm_bool(cond, True)
+                for (tg, lab) in fn.succ(b):
+                    val = (lab == ("sw", "otherwise"))
+                    a = (atom_t[0], atom_t[1] if val else (not atom_t[1]))
+                    edge_ev[(b, tg, lab)] = [("C", a[0], a[1])]
+            else:
+                c = strip(cond)
+                ve = variant_edges(fn, b) if c[0] == "discr" else None
+                base = fmt_sym(c[1]) if c[0] == "discr" else fmt_sym(c)
+                listed = []
+                inv = {}
+                if ve:
+                    for k, v in ve.items():
+                        if k is not None:
+                            inv.setdefault(v, []).append(k)
+                for (v, tgt) in t[4]:
+                    nm = None
+                    if ve:
+                        for k, vv in ve.items():
+                            if k is not None and vv == tgt and (enum_variant_index_ok(fn, b, k, v)):
+                                nm = k
+                    nm = nm if nm is not None else v
+                    listed.append(nm)
+                    edge_ev[(b, tgt, ("sw", v))] = [("C", "%s is %s" % (base, nm), True)]
+                edge_ev[(b, t[5], ("sw", "otherwise"))] = [("C", "%s is %s" % (base, nm2), False) for nm2 in listed]
+    sets, capped = path_event_sets(fn, block_ev, edge_ev, start=start, stop_blocks=stop_blocks, cap=cap)
+    rows = set()
+    for ex, ss in sets.items():
+        for seq in ss:
+            conds = []
+            ret = None
+            for e in seq:
+                if e[0] == "C":
+                    if (e[1], e[2]) not in conds:
+                        conds.append((e[1], e[2]))
+                elif e[0] == "R":
+                    ret = e[1]
+            rows.add((tuple(conds), ret))
+    return sorted(rows, key=lambda r: (str(r[0]), str(r[1]))), capped
+
+
+def enum_variant_index_ok(fn, b, name, value):
+    ty = discr_type(fn, b)
+    if ty is None:
+        return True
+    base = ir.short(ty.lstrip("&").replace("mut ", ""))
+    if "<" in base:
+        base = base.split("<")[0]
+    return enum_variant_by_discr(fn.prog, base, value) == name
+
+
+def check_decision(rows, atom_of, expected, ret_of=None):
+    """rows from decision_table. atom_of(atom_string) -> short atom name or None (irrelevant condition).
+    expected(assign: dict name->bool) -> bool. For every row, every completion of the unassigned named atoms must
+    make expected(...) equal the row's return value. Returns list of (row, reason) mismatches."""
+    import itertools
+    names = set()
+    parsed = []
+    for conds, ret in rows:
+        asg = {}
+        contradictory = False
+        for (a, v) in conds:
+            n = atom_of(a)
+            if n is None:
+                continue
+            neg = False
+            if isinstance(n, tuple):
+                n, neg = n
+            val = (not v) if neg else v
+            if n in asg and asg[n] != val:
+                contradictory = True
+            asg[n] = val
+            names.add(n)
+        if contradictory:
+            continue
+        parsed.append((conds, ret, asg))
+    bad = []
+    allnames = sorted(names)
+    for conds, ret, asg in parsed:
+        rv = ret_of(ret) if ret_of else {"true": True, "false": False}.get(ret)
+        free = [n for n in allnames if n not in asg]
+        for combo in itertools.product([False, True], repeat=len(free)):
+            full = dict(asg)
+            full.update(zip(free, combo))
+            exp = expected(full)
+            if exp is None:
+                continue
+            if rv is None:
+                bad.append(((conds, ret), "return value `%s` is not a boolean constant the table understands" % ret))
+                break
+            if rv != exp:
+                bad.append(((conds, ret), "under %s the function returns %s, expected %s" % (
+                    {k: v for k, v in full.items()}, rv, exp)))
+                break
+    return bad
+
+
+
+# ----------------------------------------------------------------------------- bool-constant aware reachability
+
+def _tracked_bools(fn):
+    """User-named bool locals that receive at least one constant assignment (materialised conditions)."""
+    out = set()
+    for n, (ty, name) in enumerate(fn.locals):
+        if ty != "bool" or not name or n <= fn.argc:
+            continue
+        for d in fn.defs().get(n, []):
+            if d[2] == "assign" and d[3][4][0] == "use" and d[3][4][1][0] == "k" and isinstance(d[3][4][1][2], bool):
+                out.add(n)
+    return out
+
+
+def _eval_bool_operand(fn, op, known, depth=0):
+    if op[0] == "k":
+        return op[2] if isinstance(op[2], bool) else None
+    if op[0] in "cm" and not op[1][1]:
+        return _eval_bool_local(fn, op[1][0], known, depth)
+    return None
+
+
+def _eval_bool_local(fn, loc, known, depth=0):
+    if loc in known:
+        return known[loc]
+    if depth > 6:
+        return None
+    ds = fn.defs().get(loc, [])
+    if len(ds) != 1 or ds[0][2] != "assign" or ds[0][3][3][1]:
+        return None
+    rv = ds[0][3][4]
+    if rv[0] == "use":
+        return _eval_bool_operand(fn, rv[1], known, depth + 1)
+    if rv[0] == "un" and rv[1] == "Not":
+        v = _eval_bool_operand(fn, rv[2], known, depth + 1)
+        return None if v is None else (not v)
+    if rv[0] == "bin" and rv[1] in ("Eq", "Ne"):
+        a = _eval_bool_operand(fn, rv[2], known, depth + 1)
+        b = _eval_bool_operand(fn, rv[3], known, depth + 1)
+        if a is None or b is None:
+            return None
+        return (a == b) if rv[1] == "Eq" else (a != b)
+    return None
+
+
+def reach_bool(fn, start, avoid_edges=(), avoid_blocks=(), cap=200000):
+    """Like Fn.reach, but tracks the constant value of user-named bool locals along each path and follows only
+    the consistent edge of a switch whose operand evaluates from them (handles `let ok = a && b; if !ok {..}`)."""
+    tracked = _tracked_bools(fn)
+    if not tracked:
+        return fn.reach(start, avoid_edges=avoid_edges, avoid_blocks=avoid_blocks)
+    ae2 = set(e for e in avoid_edges if len(e) == 2)
+    ae3 = set(e for e in avoid_edges if len(e) == 3)
+    ab = set(avoid_blocks)
+    init = (start, frozenset())
+    seen = {init}
+    dq = deque([init])
+    blocks = {start}
+    n = 0
+    while dq:
+        n += 1
+        if n > cap:
+            return fn.reach(start, avoid_edges=avoid_edges, avoid_blocks=avoid_blocks)
+        b, kn = dq.popleft()
+        known = dict(kn)
+        for s in fn.stmts(b):
+            if s[2] == "=" and not s[3][1] and s[3][0] in tracked:
+                rv = s[4]
+                v = None
+                if rv[0] == "use":
+                    v = _eval_bool_operand(fn, rv[1], known)
+                elif rv[0] == "un" and rv[1] == "Not":
+                    v = _eval_bool_operand(fn, rv[2], known)
+                    v = None if v is None else (not v)
+                if v is None:
+                    known.pop(s[3][0], None)
+                else:
+                    known[s[3][0]] = v
+        t = fn.term(b)
+        if t[2] == "call" and not t[5][1] and t[5][0] in tracked:
+            known.pop(t[5][0], None)
+        only = None
+        if t[2] == "switch":
+            be = bool_edges(fn, b)
+            if be is not None:
+                v = _eval_bool_operand(fn, t[3], known)
+                if v is not None:
+                    only = ("sw", "otherwise") if v else ("sw", 0)
+        kn2 = frozenset(known.items())
+        for (tg, lab) in fn.succ(b):
+            if only is not None and lab != only:
+                continue
+            if (b, tg) in ae2 or (b, tg, lab) in ae3 or tg in ab:
+                continue
+            st = (tg, kn2)
+            if st not in seen:
+                seen.add(st)
+                blocks.add(tg)
+                dq.append(st)
+    return blocks
